@@ -891,3 +891,28 @@ SPECS["C03"]["level_text"] += (' Props/C03A (track apigaps): the public entry po
     'flatten_into(dst) / StableIovec::{iovs, flatten, flatten_into} return the stable bytes in order with dst kept in front; Read as the crate writes it '
     '(front + advance_slices) is readInto; ZeroCopySink is push_copy / push; consumer calls through a StableIovec or the Err side of stable_consumer '
     'are the plain consumer calls. The harness oracle checks every new accessor against stable_prefix() and the shadow buffer.')
+SPECS["C04"]["lean_modules"] += ["Woodpile.Props.C04A"]
+SPECS["C04"]["theorems"] += [
+    "Woodpile.Props.C04A.accessors_ok_iff_no_pending",
+    "Woodpile.Props.C04A.front_and_iter_before_first_hole",
+    "Woodpile.Props.C04A.read_stops_before_placeholder",
+]
+SPECS["C04"]["level_text"] += (' Props/C04A (track apigaps): iovs / flatten / flatten_into(dst) / stable_consumer / StableIovec::try_from now have model '
+    'functions (Model/IovecApi.lean: a Result<T,T> is (isOk, payload)) that the driver prints and the correspondence run compares: all four are Ok '
+    'exactly when the pipe has no hole, and Ok or Err the payload is the stable prefix (byte cells at the front of the pipe, dst kept in front); '
+    'front / iteration hand out stable slices only; Read as the crate writes it (front + advance_slices) stops before the first placeholder.')
+SPECS["C05"]["lean_modules"] += ["Woodpile.Props.C05A"]
+SPECS["C05"]["theorems"] += [
+    "Woodpile.Props.C05A.from_iter_is_wstep",
+    "Woodpile.Props.C05A.sink_is_wstep",
+    "Woodpile.Props.C05A.defaults_are_wsteps",
+    "Woodpile.Props.C05A.stable_consumer_is_wstep",
+    "Woodpile.Props.C05A.accessors_return_stable_slices",
+    "Woodpile.Props.C05A.accessors_exposed_live",
+]
+SPECS["C05"]["level_text"] += (' Model identity (audit gap 6): the Lean driver of the iovec family no longer wires the model functions a second time - '
+    'it parses every op line into WOp values and computes the next world with World.step / World.run, the very function these theorems quantify over '
+    '(Driver/Iovec.lean: parseWOp, stepWOp; World.step = none is classified as bad-op / caught wrong-size backfill panic / panic). Props/C05A (track apigaps): '
+    'the op words added for the rest of the public API (from_iter, ZeroCopySink, ByteArena::clone, Backref::default, consumer calls through a StableIovec) '
+    'are executed as the WOp steps they are proved equal to, and front / iteration / iovs / StableIovec::iovs hand out slices of the stable prefix only, so '
+    'exposed_live covers them.')
